@@ -1,18 +1,195 @@
 (* C07 — Packet values: bodies, error codes and replies are faithful.
-   Only the property theorems; each closed by an exact lemma, followed by Print Assumptions. *)
+   Only the property theorems; each closed by exact lemmas, followed by Print Assumptions.
+
+   Conventions.  `o : oracles` (float conversions and strconv's float text) and `c : coders`
+   (zlib, cipher) are universally quantified; coders_ok states that they invert.  Totality
+   ("has a defined text form", "always has a wire form") is carried by the types: the model's
+   body_to_string / body_to_bytes are total functions into byte strings, and the correspondence
+   check establishes on every run that the code agrees with them (in particular does not
+   panic); the theorems below say what those forms are. *)
 From Coq Require Import ZArith List Bool.
 From FV Require Import Generated.Consts Lib.Wrap Lib.LE Lib.Varint Lib.Dec C07.Model C07.Proofs.
 Import ListNotations.
 Open Scope Z_scope.
 
-(* "numbers as variable-length integers that decode to exactly the value set" — every int64 *)
+(* "A body set from any supported Go value reads back, through the accessor of its own kind, as
+   the same value": every integer kind (uint / uint64 values above the int64 range keep their
+   64 bits), bool, float32 (widened), float64 bit for bit, text, bytes, nil *)
+Theorem c07_readback : forall o,
+  (forall k z, int_range k z ->
+     body_to_int o (set_body o (GInt k z)) = Some (wraps 64 z) /\ in_s 64 (wraps 64 z) /\
+     wrapu 64 (wraps 64 z) = wrapu 64 z /\ (fits_int64 k -> wraps 64 z = z)) /\
+  (forall b, body_to_int o (set_body o (GBool b)) = Some (if b then 1 else 0)) /\
+  (forall f, body_to_float o (set_body o (GF64 f)) = Some f) /\
+  (forall f, body_to_float o (set_body o (GF32 f)) = Some (widen o f)) /\
+  (forall s, body_to_string o (set_body o (GStr s)) = s) /\
+  (forall b, body_to_bytes (set_body o (GBytes b)) = b) /\
+  set_body o GNil = BNil.
+Proof.
+  intros o. split; [exact (readback_int o)|]. split; [exact (readback_bool o)|].
+  split; [exact (readback_f64 o)|]. split; [exact (readback_f32 o)|]. split; [exact (readback_str o)|].
+  split; [exact (readback_bytes o)|exact (readback_nil o)].
+Qed.
+Print Assumptions c07_readback.
+
+(* "has a defined text form for every supported kind including integers": integers print in
+   decimal and parse back (every int64, hence every integer kind and bool after SetBody); text
+   and bytes are themselves; floats are strconv's text; nil is "<nil>" *)
+Theorem c07_text_total : forall o,
+  (forall z, in_s 64 z -> body_to_string o (BInt z) = format_int z /\
+                          parse_int (body_to_string o (BInt z)) = Some z /\
+                          body_to_string o (BInt z) <> []) /\
+  (forall k z, int_range k z -> parse_int (body_to_string o (set_body o (GInt k z))) = Some (wraps 64 z)) /\
+  (forall b, parse_int (body_to_string o (set_body o (GBool b))) = Some (if b then 1 else 0)) /\
+  (forall s, body_to_string o (BStr s) = s) /\ (forall b, body_to_string o (BBytes b) = b) /\
+  (forall f, body_to_string o (BFloat f) = fmtf o f) /\ body_to_string o BNil = nil_text.
+Proof.
+  intros o. split; [exact (text_int o)|]. split; [exact (text_set_int o)|]. split; [exact (text_set_bool o)|].
+  repeat split.
+Qed.
+Print Assumptions c07_text_total.
+
+(* "always has a wire form: text and bytes travel verbatim, numbers as variable-length integers
+   that decode to exactly the value set (floats through their IEEE-754 bits), and an absent body
+   as an empty one" *)
+Theorem c07_wire_total : forall o,
+  body_to_bytes BNil = [] /\
+  (forall s, body_to_bytes (set_body o (GStr s)) = s) /\
+  (forall b, body_to_bytes (set_body o (GBytes b)) = b) /\
+  (forall k z rest, int_range k z ->
+     varint (body_to_bytes (set_body o (GInt k z)) ++ rest) =
+     (wraps 64 z, Z.of_nat (length (body_to_bytes (set_body o (GInt k z)))))) /\
+  (forall b rest,
+     varint (body_to_bytes (set_body o (GBool b)) ++ rest) =
+     ((if b then 1 else 0), Z.of_nat (length (body_to_bytes (set_body o (GBool b)))))) /\
+  (forall f rest, 0 <= f < 2 ^ 64 ->
+     uvarint (body_to_bytes (set_body o (GF64 f)) ++ rest) =
+     (f, Z.of_nat (length (body_to_bytes (set_body o (GF64 f)))))) /\
+  (forall f rest, 0 <= widen o f < 2 ^ 64 ->
+     uvarint (body_to_bytes (set_body o (GF32 f)) ++ rest) =
+     (widen o f, Z.of_nat (length (body_to_bytes (set_body o (GF32 f)))))).
+Proof.
+  intros o. split; [reflexivity|]. split; [reflexivity|]. split; [reflexivity|].
+  split; [exact (wire_set_int o)|]. split; [exact (wire_set_bool o)|].
+  split; [intros f rest H; exact (float_wire_roundtrip f rest H)|].
+  intros f rest H; exact (float_wire_roundtrip (widen o f) rest H).
+Qed.
+Print Assumptions c07_wire_total.
+
+(* every int64 *)
 Theorem c07_varint_roundtrip : forall z rest, in_s 64 z ->
   varint (body_to_bytes (BInt z) ++ rest) = (z, Z.of_nat (length (body_to_bytes (BInt z)))).
 Proof. exact int_wire_roundtrip. Qed.
 Print Assumptions c07_varint_roundtrip.
 
-(* "(floats through their IEEE-754 bits)" — every 64-bit pattern, NaN payloads and -0 included *)
+(* every 64-bit pattern: NaN payloads, infinities, -0, denormals *)
 Theorem c07_float_roundtrip : forall f rest, 0 <= f < 2 ^ 64 ->
   uvarint (body_to_bytes (BFloat f) ++ rest) = (f, Z.of_nat (length (body_to_bytes (BFloat f)))).
 Proof. exact float_wire_roundtrip. Qed.
 Print Assumptions c07_float_roundtrip.
+
+(* what each codec delivers: whenever the frame crosses (V1 / V2, any threshold, with or without
+   the cipher) the receiver holds v1_result / v2_result of the sender's packet, and it does
+   cross whenever it fits the codec's size limit *)
+Theorem c07_wire_result : forall c thr enc p, coders_ok c -> clean (flg p) ->
+  (forall q, wire_v1 c thr enc enc p = Some q -> q = v1_result p) /\
+  (forall q, wire_v2 c thr enc enc p = Some q -> q = v2_result p) /\
+  (codec_V1HeaderSize + Z.of_nat (length (snd (marshal_body c thr enc p))) <= codec_V1MaxPayloadBytes ->
+     wire_v1 c thr enc enc p = Some (v1_result p)) /\
+  (Z.of_nat (length (refers p)) <= 255 ->
+   codec_V2HeaderSize + 4 * Z.of_nat (length (refers p)) + Z.of_nat (length (snd (marshal_body c thr enc p)))
+     <= codec_V2MaxPayloadBytes ->
+     wire_v2 c thr enc enc p = Some (v2_result p)).
+Proof.
+  intros c thr enc p Hc Hcl. split; [intros q; exact (wire_v1_result c thr enc p q Hc Hcl)|].
+  split; [intros q; exact (wire_v2_result c thr enc p q Hc Hcl)|].
+  split; [exact (wire_v1_complete c thr enc p Hc Hcl)|exact (wire_v2_complete c thr enc p Hc Hcl)].
+Qed.
+Print Assumptions c07_wire_result.
+
+(* "so every packet a decoder can produce can be sent on again": the decoded body is nil, bytes
+   or an integer (kinds with a wire form), and without the error flag its wire form is exactly
+   the sender's, so forwarding re-creates the same payload *)
+Theorem c07_resend : forall p,
+  (pbody (v1_result p) = BNil \/ (exists w, pbody (v1_result p) = BBytes w) \/ (exists z, pbody (v1_result p) = BInt z)) /\
+  (pbody (v2_result p) = BNil \/ (exists w, pbody (v2_result p) = BBytes w) \/ (exists z, pbody (v2_result p) = BInt z)) /\
+  (has_flag (flg p) root_PFlagError = false ->
+     body_to_bytes (pbody (v1_result p)) = body_to_bytes (pbody p) /\
+     body_to_bytes (pbody (v2_result p)) = body_to_bytes (pbody p)).
+Proof.
+  intros p. split; [exact (decoded_kind_v1 p)|]. split; [exact (decoded_kind_v2 p)|].
+  intros H. split; [exact (resend_v1 p H)|exact (resend_v2 p H)].
+Qed.
+Print Assumptions c07_resend.
+
+(* "An error code placed on a packet is the code the receiver reads after the packet crossed the
+   wire": every int32 code, both codecs, any compression threshold, with or without the cipher *)
+Theorem c07_errno_wire : forall c thr enc e p q, coders_ok c -> clean (flg p) -> in_s 32 e ->
+  (wire_v1 c thr enc enc (set_errno e p) = Some q -> errno q = e) /\
+  (wire_v2 c thr enc enc (set_errno e p) = Some q -> errno q = e).
+Proof.
+  intros c thr enc e p q Hc Hcl He.
+  split; [exact (errno_wire_v1 c thr enc e p q Hc Hcl He)|exact (errno_wire_v2 c thr enc e p q Hc Hcl He)].
+Qed.
+Print Assumptions c07_errno_wire.
+
+(* the code is also what the sender itself reads, for every 8-bit flag value *)
+Theorem c07_errno_local : forall e p, 0 <= flg p < 256 -> in_s 32 e -> errno (set_errno e p) = e.
+Proof. exact errno_set. Qed.
+Print Assumptions c07_errno_local.
+
+(* "and zero when no error is flagged" *)
+Theorem c07_errno_zero : forall p, has_flag (flg p) root_PFlagError = false -> errno p = 0.
+Proof. exact errno_unflagged. Qed.
+Print Assumptions c07_errno_zero.
+
+(* "a reply ... carries the request's sequence number, type, node and reference list ... and is
+   sent on the endpoint the request arrived from" (plus: the given command and body) *)
+Theorem c07_reply_fields : forall p command b,
+  (forall e q, reply_with p command b = Some (e, q) ->
+     endpoint p = Some e /\ cmd q = command /\ seq q = seq p /\ typ q = typ p /\ node q = node p /\
+     refers q = refers p /\ flg q = flg p /\ pbody q = b) /\
+  (forall e, endpoint p = Some e -> exists q, reply_with p command b = Some (e, q)).
+Proof.
+  intros p command b. split; [intros e q; exact (reply_fields p command b e q)|].
+  intros e; exact (reply_sent p command b e).
+Qed.
+Print Assumptions c07_reply_fields.
+
+(* "... marks refusals with the error flag and the given code": RefuseWith and Refuse, every
+   int32 code, every 8-bit flag value of the request *)
+Theorem c07_refuse_fields : forall p ec, 0 <= flg p < 256 -> in_s 32 ec ->
+  (forall command e q, refuse_with p command ec = Some (e, q) ->
+     endpoint p = Some e /\ cmd q = command /\ seq q = seq p /\ typ q = typ p /\ node q = node p /\
+     refers q = refers p /\ has_flag (flg q) root_PFlagError = true /\ errno q = ec /\ pbody q = BInt ec) /\
+  (forall ack e q, refuse ack p ec = Some (e, q) ->
+     endpoint p = Some e /\ cmd q = (if ack (cmd p) =? 0 then cmd p else ack (cmd p)) /\
+     seq q = seq p /\ typ q = typ p /\ node q = node p /\
+     refers q = refers p /\ has_flag (flg q) root_PFlagError = true /\ errno q = ec).
+Proof.
+  intros p ec Hf He. split.
+  - intros command e q; exact (refuse_with_fields p command ec e q Hf He).
+  - intros ack e q; exact (refuse_fields ack p ec e q Hf He).
+Qed.
+Print Assumptions c07_refuse_fields.
+
+(* non-vacuity: the coders the correspondence check runs the model with satisfy coders_ok, a clean flag with other bits set exists, and
+   an error code really crosses both model codecs with compression and cipher switched on *)
+Example c07_example :
+  coders_ok tag_coders /\ clean 160 /\ in_s 32 (-8) /\
+  let p := mkPkt 1001 7 2 160 65537 BNil [5; 6] (Some 1) in
+  option_map errno (wire_v1 tag_coders 1 true true (set_errno (-8) p)) = Some (-8) /\
+  option_map errno (wire_v2 tag_coders 1 true true (set_errno (-8) p)) = Some (-8) /\
+  option_map (fun q => (flg q, refers q)) (wire_v2 tag_coders 1 true true (set_errno (-8) p)) = Some (176, [5; 6]).
+Proof.
+  split.
+  - constructor.
+    + reflexivity.
+    + discriminate.
+    + intros b. cbn. rewrite map_map. rewrite <- (map_id b) at 2. apply map_ext. intros x.
+      rewrite Z.lxor_assoc, Z.lxor_nilpotent, Z.lxor_0_r. reflexivity.
+    + intros b Hb. destruct b; [congruence|discriminate].
+  - split; [unfold clean; vm_compute; repeat split; discriminate|].
+    split; [unfold in_s; vm_compute; split; discriminate || reflexivity|].
+    cbv zeta. repeat split; vm_compute; reflexivity.
+Qed.
